@@ -215,8 +215,8 @@ pub fn run(ch: &mut Ch, verbose: bool) -> Outcome {
     let log = &r.server.log;
 
     // canary: the handler must read the clock the simulator owns
-    if log.iter().any(|a| a.is_request) && sn_fake_clock::FakeClock::reads() == 0 {
-        out.harness_error = Some("the block handler did not read the simulated clock during a run: its time source is no longer behind lru_time_cache's clock type, so simulated time is invisible to it (C20 cannot be decided by this harness)".into());
+    if log.iter().any(|a| a.is_request) && sn_fake_clock::FakeClock::reads() + crate::clockshim::reads() == 0 {
+        out.harness_error = Some("the block handler did not read the simulated clock during a run: its time source is neither lru_time_cache's clock type nor the C library's clock_gettime, so simulated time is invisible to it (C20 cannot be decided by this harness)".into());
         return out;
     }
 
